@@ -45,17 +45,17 @@ def path_cases(rng):
 def run(tier):
     ck = Check("C05", tier)
     rng = vlib.rng("c05")
-    cases = path_cases(rng) + semgen.copy_cases(tier, rng) + semgen.stmt_cases(tier, rng)
+    cases = path_cases(rng) + semgen.ownership_cases(tier, rng) + semgen.copy_cases(tier, rng) + semgen.stmt_cases(tier, rng)
     th = semgen.text_history_cases("quick", rng)
     cases += rng.sample(th, 60 if tier == "quick" else len(th))
     structural = [c for c in semgen.optable(tier, rng) if c.key.split(":")[0] in ("struct", "var", "std", "cast") or ":cat:" in c.key or ":l" in c.key or "slice" in c.key]
     cases += structural if tier == "thorough" else rng.sample(structural, min(len(structural), 250))
-    sigs = semrun.plan_cases(ck, cases, funcs=semgen.FUNCS, nearly=semgen.GLOBALS, label="C05 plan")
+    sigs = semrun.plan_cases(ck, cases, funcs=semgen.OWN_FUNCS, nearly=semgen.OWN_GLOBALS, label="C05 plan")
     okc = [c for c, s in zip(cases, sigs) if s == "ok"]
     ck.cov["unspecified_or_failing_skipped"] = len(cases) - len(okc)
     per = 10
     batches = [okc[i:i + per] for i in range(0, len(okc), per)]
-    progs = [semgen.batch_program(b, "C05-%d" % i, funcs=semgen.FUNCS, nearly_stmts=semgen.GLOBALS) for i, b in enumerate(batches)]
+    progs = [semgen.batch_program(b, "C05-%d" % i, funcs=semgen.OWN_FUNCS, nearly_stmts=semgen.OWN_GLOBALS) for i, b in enumerate(batches)]
     srcs = [ddp.render(p) for p in progs]
     runner = ddp.Runner()
     opts = (0, 2) if tier == "quick" else (0, 1, 2)
